@@ -90,12 +90,35 @@ func c08Constructs() []c08Construct {
 		n := "c" + itoa(id)
 		return c08SO{"{% set " + n + " %}" + in.src + "{% endset %}{{ " + n + "|wrap }}", c08Wrap(in.out)}
 	}})
+	// filter sections whose filters look at the type of what they are given: every filter of a section receives
+	// the text produced so far (a string), whatever the previous filter returned
+	for _, ch := range [][]string{{"kind"}, {"cnt", "kind"}, {"up", "cnt", "kind", "rev"}} {
+		ch := ch
+		cs = append(cs, c08Construct{"filter " + strings.Join(ch, "|") + " (type-sensitive)", func(b *c08Builder, in c08SO, id int) c08SO {
+			out := in.out
+			for _, f := range ch {
+				switch f {
+				case "kind":
+					out = "<string:" + out + ">"
+				case "cnt":
+					out = itoa(len([]rune(out)))
+				default:
+					out = c08FilterFns[f](out)
+				}
+			}
+			return c08SO{"{% filter " + strings.Join(ch, "|") + " %}" + in.src + "{% endfilter %}", out}
+		}})
+	}
 	return cs
 }
 
 const c08MacroIdx = 14
 
-var c08Leaves = []c08SO{{"t", "t"}, {"{{ v }}", "V"}, {"{{ parent() }}", "BVP"}}
+var c08Leaves = []c08SO{{"t", "t"}, {"{{ v }}", "V"}, {"{{ parent() }}", "BVP"},
+	// a capture whose body is exactly one print: the variable holds the printed text (a string), not the value
+	{"{% set q %}{{ v }}{% endset %}{{ kind(q) }}", "<string:V>"},
+	{"{% set q %}{{ n }}{% endset %}{{ kind(q) }}{{ q|kind }}{% set q2 %}{{ nil }}{% endset %}{{ kind(q2) }}", "<string:0><string:0><string:>"},
+}
 
 const c08Base = "<<{% block main %}B{{ v }}{% filter up %}p{% endfilter %}{% endblock %}>>"
 
@@ -109,6 +132,12 @@ func c08Env(tpls map[string]string) *stick.Env {
 	}
 	env.Filters["wrap"] = func(ctx stick.Context, val stick.Value, args ...stick.Value) stick.Value {
 		return c08Wrap(stick.CoerceString(val))
+	}
+	kind := func(val stick.Value) stick.Value { return fmt.Sprintf("<%T:%s>", val, stick.CoerceString(val)) }
+	env.Filters["kind"] = func(ctx stick.Context, val stick.Value, args ...stick.Value) stick.Value { return kind(val) }
+	env.Functions["kind"] = func(ctx stick.Context, args ...stick.Value) stick.Value { return kind(args[0]) }
+	env.Filters["cnt"] = func(ctx stick.Context, val stick.Value, args ...stick.Value) stick.Value {
+		return len([]rune(stick.CoerceString(val))) // an int, not a string
 	}
 	return env
 }
@@ -135,7 +164,7 @@ func c08Build(inherit bool, chains [][]int, leaves []int) (tpls map[string]strin
 				if inherit {
 					return nil, "", false // macros defined in an extending child are not claimed
 				}
-				if strings.Contains(so.src, "{{ v }}") || strings.Contains(so.src, "{% block") {
+				if strings.Contains(so.src, "{{ v }}") || strings.Contains(so.src, "{{ n }}") || strings.Contains(so.src, "{% block") {
 					return nil, "", false // macro bodies touch no outer variable and define no block
 				}
 			}
@@ -174,7 +203,7 @@ func c08Run(c core.Case) core.Result {
 	if !ok {
 		return core.Skipped("not-claimed-combination")
 	}
-	out, err, pan := tryExec(c08Env(tpls), "main", map[string]stick.Value{"v": "V"})
+	out, err, pan := tryExec(c08Env(tpls), "main", map[string]stick.Value{"v": "V", "n": 0})
 	if pan != "" {
 		return core.Violation("panic", fmt.Sprintf("%q panicked: %s", tpls["main"], pan))
 	}
@@ -195,6 +224,9 @@ func c08GenChains(depth int, inherit int, emit func(core.Case)) {
 			for leaf := 0; leaf < len(c08Leaves); leaf++ {
 				if leaf == 2 && inherit == 0 {
 					continue
+				}
+				if leaf >= 3 && d > 3 {
+					continue // the capture-of-one-print leaves: chains of depth <= 3
 				}
 				emit(core.Case{Fam: "chain", N: append(append([]int{inherit, 1, d}, idx...), leaf)})
 			}
@@ -221,7 +253,7 @@ func c08Levels(tier string) []core.Level {
 	}
 	n := len(c08Constructs())
 	lv := []core.Level{
-		{Name: fmt.Sprintf("plain template: every nesting chain of depth <= %d over %d constructs x 2 leaves, unique markers at every level, trailing marker", depth, n), Gen: func(emit func(core.Case)) { c08GenChains(depth, 0, emit) }},
+		{Name: fmt.Sprintf("plain template: every nesting chain of depth <= %d over %d constructs x 4 leaves (text, print, a capture of exactly one print observed through a type-revealing callback x 2; the last two to depth 3), unique markers at every level, trailing marker", depth, n), Gen: func(emit func(core.Case)) { c08GenChains(depth, 0, emit) }},
 		{Name: fmt.Sprintf("inside an overriding block of a two-level inheritance host (parent() as a leaf): every chain of depth <= %d", depth), Gen: func(emit func(core.Case)) { c08GenChains(depth, 1, emit) }},
 		{Name: "siblings: every pair of depth <= 2 chains side by side (a capture that does not restore the writer shows in the second)", Gen: func(emit func(core.Case)) {
 			var chains [][]int
